@@ -12,11 +12,15 @@ package main
 
 import (
 	"context"
+	"crypto/rand"
 	"crypto/x509"
 	"encoding/base64"
 	"encoding/hex"
 	"errors"
 	"fmt"
+	"math/big"
+	"net/http"
+	"net/http/httptest"
 	"os"
 	"strings"
 	"sync"
@@ -502,6 +506,7 @@ func main() {
 	r.RequireAtLeast("timestamp-fail", 1000)
 	r.RequireAtLeast("timestamp-branch-good-token", 50)
 	r.RequireAtLeast("expiry-results", 1000)
+	defaultTimestampingValidator(r)
 	r.Finish()
 }
 
@@ -627,4 +632,101 @@ func longLivedVerifier(r *lib.Run, root *lib.Ent, desc ocispec.Descriptor, paylo
 			}
 		}
 	}
+}
+
+// defaultTimestampingValidator: the caller configures revocation checking for the SIGNING chain only (a validator of
+// its own, or the deprecated client) and leaves the timestamping validator to the library. "Issued by an unrevoked TSA"
+// still holds: the TSA certificate names a CRL distribution point (a loopback server), and the CRL published there lists
+// it as revoked - or, as control, lists nothing.
+func defaultTimestampingValidator(r *lib.Run) {
+	ctx := context.Background()
+	now := time.Now()
+	var mu sync.Mutex
+	crls := map[string][]byte{}
+	srv := httptest.NewServer(http.HandlerFunc(func(w http.ResponseWriter, q *http.Request) {
+		mu.Lock()
+		b, ok := crls[q.URL.Path]
+		mu.Unlock()
+		if !ok {
+			http.NotFound(w, q)
+			return
+		}
+		w.Header().Set("Content-Type", "application/pkix-crl")
+		w.Write(b)
+	}))
+	defer srv.Close()
+	root := lib.Mint(nil, lib.CertSpec{CN: "c06-dv-root", Kind: "ca", KeyIdx: 7})
+	leaf := lib.Mint(root, lib.CertSpec{CN: "c06-dv-leaf", Kind: "codesign", KeyIdx: 0})
+	desc := lib.Desc(ocispec.MediaTypeImageManifest, []byte("c06 default validator"))
+	n := 0
+	for _, how := range []string{"validator", "deprecated-client", "neither"} {
+		for _, revoked := range []bool{false, true} {
+			for _, format := range lib.Formats {
+				n++
+				path := fmt.Sprintf("/tsa-%d.crl", n)
+				tsaRoot := lib.Mint(nil, lib.CertSpec{CN: fmt.Sprintf("c06-dv-tsa-root-%d", n), Kind: "ca", KeyIdx: 6, CRLSign: true})
+				tsaLeaf := lib.Mint(tsaRoot, lib.CertSpec{CN: fmt.Sprintf("c06-dv-tsa-%d", n), Kind: "tsa", KeyIdx: 2, CRLURL: srv.URL + path})
+				tmpl := &x509.RevocationList{Number: big.NewInt(int64(n)), ThisUpdate: now.Add(-time.Hour), NextUpdate: now.Add(24 * time.Hour)}
+				if revoked {
+					tmpl.RevokedCertificateEntries = []x509.RevocationListEntry{{SerialNumber: tsaLeaf.Cert.SerialNumber, RevocationTime: now.Add(-48 * time.Hour)}}
+				}
+				der, err := x509.CreateRevocationList(rand.Reader, tmpl, tsaRoot.Cert, tsaRoot.Key)
+				if err != nil {
+					r.Inconclusive("default timestamping validator: cannot mint the CRL: " + err.Error())
+					return
+				}
+				mu.Lock()
+				crls[path] = der
+				mu.Unlock()
+				raw := lib.MustCoreSign(lib.SignSpec{Format: format, Payload: lib.Payload(desc), Signer: leaf, SigningTime: now.Add(-time.Minute)})
+				sigVal, alg := lib.SigValue(format, raw)
+				stamped := lib.AttachToken(format, raw, (&lib.TSA{Key: tsaLeaf.Key, Chain: tsaLeaf.Chain()}).Token(lib.TokenSpec{Message: sigVal, Hash: alg.Hash(), GenTime: now.Add(-30 * time.Second), AccuracyS: 1}))
+				sv := trustpolicy.SignatureVerification{VerificationLevel: "strict", VerifyTimestamp: trustpolicy.OptionAlways}
+				vo := verifier.VerifierOptions{OCITrustPolicy: lib.OCIPolicy(sv, []string{"ca:x", "tsa:t"}, []string{"*"})}
+				switch how {
+				case "validator":
+					vo.RevocationCodeSigningValidator = lib.OKRev{}
+				case "deprecated-client":
+					vo.RevocationClient = okClient{}
+				}
+				if how == "neither" && !revoked {
+					continue // (the default code-signing validator would be asked about a signing chain without revocation information: not this phase's subject)
+				}
+				v, err := verifier.NewVerifierWithOptions(lib.NewMemTS().Put("ca:x", root.Cert).Put("tsa:t", tsaRoot.Cert), vo)
+				if err != nil {
+					r.Inconclusive("default timestamping validator: verifier construction failed: " + err.Error())
+					return
+				}
+				_, verr := v.Verify(ctx, desc, stamped, notation.VerifierVerifyOptions{ArtifactReference: "r.io/a@" + desc.Digest.String(), SignatureMediaType: format})
+				r.Eval(fmt.Sprintf("default-timestamping-validator|%s|%v|%s", how, revoked, format))
+				wit := map[string]any{"revocation_configured_by": how, "tsa_revoked_in_its_crl": revoked, "format": format, "error": fmt.Sprint(verr)}
+				if !revoked {
+					r.Event("default-timestamping-validator-controls")
+					if verr != nil {
+						r.Event("completeness:unrevoked-tsa-under-the-default-validator-rejected")
+						r.Sample("default validator control rejected", wit)
+					} else {
+						r.Event("default-timestamping-validator-controls-passed")
+					}
+					continue
+				}
+				r.Event("revoked-tsa-under-the-default-timestamping-validator")
+				if verr == nil {
+					r.Violation(map[string]string{"kind": "revoked-tsa-accepted", "verifier": "default-timestamping-validator", "configured": how},
+						fmt.Sprintf("%s: the TSA certificate is listed as revoked in the CRL its distribution point serves; the caller configured revocation by %q only, the library's own timestamping validator was to check the TSA - and the signature verified under strict", format, how), wit)
+				}
+			}
+		}
+	}
+}
+
+// okClient: the deprecated revocation client interface, answering OK for every certificate.
+type okClient struct{}
+
+func (okClient) Validate(certChain []*x509.Certificate, signingTime time.Time) ([]*result.CertRevocationResult, error) {
+	out := make([]*result.CertRevocationResult, len(certChain))
+	for i := range out {
+		out[i] = &result.CertRevocationResult{Result: result.ResultOK, ServerResults: []*result.ServerResult{{Result: result.ResultOK}}}
+	}
+	return out, nil
 }
